@@ -773,7 +773,9 @@ static std::string exec(const std::vector<std::string>& t, std::string& preds) {
         else if (o == "size") r = std::to_string(p.size());
         else if (o == "copy") p = g_params[std::atoi(t[3].c_str())];
         else if (o == "fromurl" && !g_url[std::atoi(t[3].c_str())].is_valid()) r = "?";   // params of an invalid URL are not observed
-        else if (o == "fromurl") { upa::url_search_params c(g_url[std::atoi(t[3].c_str())].search_params()); p = c; if (access::owner(c) != nullptr) preds += " det=0"; else preds += " det=1"; }
+        else if (o == "fromurl") { upa::url_search_params c(g_url[std::atoi(t[3].c_str())].search_params()); p = c; if (access::owner(c) != nullptr) preds += " det=0"; else preds += " det=1";
+            // the copy-constructed object itself is edited and dropped: a detached copy changes neither the URL nor p
+            c.append("copy", "edited"); c.sort(); }
         else r = "?";
         if (access::owner(p) != nullptr) preds += " det=0";
         return "r=" + r + " sp=" + pairs_str(p) + " so=" + (access::is_sorted(p) ? "1" : "0") + " str=" + hx(p.to_string());
